@@ -27,6 +27,9 @@ pub struct Scenario {
     pub fault_seed: u64,
     /// None = every enumerated fault; Some(i) = only the i-th (replay / minimisation)
     pub only: Option<usize>,
+    /// aggregated statements only: the verifier's statement carries a seed in its public field
+    #[serde(default)]
+    pub owner_seed_on_aggregate: bool,
 }
 
 pub struct C05;
@@ -42,7 +45,11 @@ fn run<G: Group>(sc: &Scenario, st: &mut RunStats) -> Vec<Violation> {
             return out;
         },
     };
-    let msg = Msg::<G>::honest(&sc.cfg, &sc.wit, &sc.ctx, &built, &proof);
+    let mut msg = Msg::<G>::honest(&sc.cfg, &sc.wit, &sc.ctx, &built, &proof);
+    if sc.owner_seed_on_aggregate && sc.cfg.m >= 2 {
+        msg.force_seed = Some(scalar_from_seed("c05forced", sc.fault_seed, 0));
+        st.probe("aggregated_statement_carrying_a_seed");
+    }
     // the unaltered triple must be accepted, otherwise nothing below means anything
     for a in [VerifyAction::VerifyOnly, VerifyAction::RecoverAndVerify] {
         match msg.deliver(a) {
@@ -311,6 +318,7 @@ impl Check for C05 {
             rng_seed: rng.next_u64(),
             fault_seed: rng.next_u64(),
             only: None,
+            owner_seed_on_aggregate: rng.chance(1, 2),
         }
     }
 
@@ -342,7 +350,7 @@ impl Check for C05 {
             "flip_bit", "replace_scalar", "replace_point", "drop_round", "add_round", "retag_extension", "truncate",
             "extend", "swap_commitments", "replace_commitment", "promise", "bits", "generator_h", "generator_g",
             "context_label", "context_extra", "ext_6", "ext_4", "m_ge_8", "aggregated", "add_many_rounds",
-            "delivered_in_batch_context", "delivered_next_to_its_original", "delivered_in_first_chunk_of_a_large_batch",
+            "delivered_in_batch_context", "delivered_next_to_its_original", "delivered_in_first_chunk_of_a_large_batch", "aggregated_statement_carrying_a_seed",
         ]
     }
 }
